@@ -48,12 +48,9 @@ FINDING_CLASSES = {
     1: "dotted-whole-group-argv",
     2: "dotted-whole-group-env",
     3: "dotted-group-key-string-or-null",
-    4: "group-key-scalar",
-    5: "inner-hyphen-required",
+    8: "hyphen-key-default-override",
 }
-# "judge" follows the tree (faithful model of the unchanged tree, else the model of the tree repaired by
-# fixes/C07-inner-hyphen-required.patch); "judge_unfixed" / "judge_fixed" pin one model (VERIF_C07_JUDGE for one run).
-JUDGE = os.environ.get("VERIF_C07_JUDGE", "judge")
+JUDGE = "judge"
 STYLES = ["dotted", "dcls", "cls", "inner"]
 
 GKEYS = ["g", "g", "g", "grp", "my_g", "my-g", "c", "h", "p"]
@@ -111,17 +108,65 @@ def explicit(fs):
 
 def py_norm(fs):
     """the documented signature rules as a normal form of the field list (harness mirror of
-    Model.C07Decl.norm; the judge re-computes it in Coq and rejects the case if the two differ)"""
+    Model.C07Decl.norm / onorm; the judge re-computes it in Coq and rejects the case if the two differ).
+    A field is [name, type, default] or [name, type, default, {"o": overriding default}]"""
     out = []
-    for nm, t, d in fs:
+    for f in fs:
+        nm, t, d = f[0], f[1], f[2]
         if "v" in d and nm.startswith("_"):   # private AND has a default in the signature: not offered
             continue
         if "nd" in d and is_opt(t):
             d = {"v": None}
         if "v" in d and d["v"] is None and not is_opt(t):
             t = ["opt", t]
-        out.append([nm, t, d])
+        out.append([nm, t, d] + list(f[3:]))
     return out
+
+
+def is_sub(m):
+    return isinstance(m, dict)
+
+
+def py_mnorm(ms):
+    out = []
+    for m in ms:
+        if is_sub(m):
+            out.append(dict(m, fields=py_norm(m["fields"])))
+        else:
+            out += py_norm([m])
+    return out
+
+
+def leaves(ms):
+    """[path below the group key, type, signature default] of every declared leaf"""
+    out = []
+    for m in ms:
+        if is_sub(m):
+            out += [[m["sub"] + "." + f[0], f[1], f[2]] for f in m["fields"]]
+        else:
+            out.append([m[0], m[1], m[2]])
+    return out
+
+
+def nest(d):
+    """{"s.lr": 1, "a": 2} -> {"s": {"lr": 1}, "a": 2}"""
+    out = {}
+    for k, v in d.items():
+        if "." in k:
+            a, b = k.split(".", 1)
+            if not isinstance(out.get(a), dict):
+                out[a] = {}
+            out[a][b] = v
+        else:
+            out[k] = v
+    return out
+
+
+def case_members(case):
+    """older replay files carry a flat field list"""
+    if "members" in case:
+        return case["members"], case["nmembers"], bool(case.get("cls_full"))
+    return case["fields"], case.get("nfields", py_norm(case["fields"])), False
 
 
 def make_explicit(fs):
@@ -192,8 +237,13 @@ def gen_config(rng, gk, fs, complete):
     """a config/object dict"""
     g = gdest(gk)
     r = rng.random()
-    if r < 0.62:
-        d = {g: group_dict(rng, fs, complete)}
+    subs = sorted({nm.split(".")[0] for nm, _, _ in fs if "." in nm})
+    if subs and r < 0.06:   # the sub-group key itself: empty mapping / non-mapping / config string
+        sub = rng.choice(subs)
+        inner = {k.split(".", 1)[1]: v for k, v in group_dict(rng, fs, complete).items() if k.startswith(sub + ".")}
+        d = {g: {sub: rng.choice([{}, 5, "abc", json.dumps(inner)])}}   # not None: see ASSUMPTIONS
+    elif r < 0.62:
+        d = {g: nest(group_dict(rng, fs, complete))}
     elif r < 0.72:   # dotted keys
         d = {}
         for k, v in group_dict(rng, fs, complete).items():
@@ -201,14 +251,14 @@ def gen_config(rng, gk, fs, complete):
     elif r < 0.78:
         d = {g: rng.choice([5, [1], True])}
     elif r < 0.86:   # class 3: string / null for the group key
-        d = {g: rng.choice([json.dumps(group_dict(rng, fs, complete)), None, "abc", "5"])}
+        d = {g: rng.choice([json.dumps(nest(group_dict(rng, fs, complete))), None, "abc", "5"])}
     elif r < 0.90:
         d = {}
     elif r < 0.95:
-        d = {g: group_dict(rng, fs, complete), rng.choice(["zz", "top"]): 1}
+        d = {g: nest(group_dict(rng, fs, complete)), rng.choice(["zz", "top"]): 1}
     else:
         # the group key spelled with its hyphen is an unknown key; never with an EMPTY mapping (see ASSUMPTIONS)
-        d = {gk: dict(group_dict(rng, fs, complete), zz=1)} if gk != g else {g: {}}
+        d = {gk: dict(nest(group_dict(rng, fs, complete)), zz=1)} if gk != g else {g: {}}
     return d
 
 
@@ -222,11 +272,14 @@ def gen_env(rng, gk, fs, complete):
         q = rng.random()
         if q < 0.6:
             nm, t, _ = rng.choice(fs)
-            env[("APP_" + g + "__" + nm).upper()] = text_for(rng, t, rng.random() < 0.85)
+            env[("APP_" + g + "__" + nm.replace(".", "__")).upper()] = text_for(rng, t, rng.random() < 0.85)
         elif q < 0.8:
             env["APP_CFG"] = json.dumps(gen_config(rng, gk, fs, complete))
         else:
-            env[("APP_" + g).upper()] = rng.choice([json.dumps(group_dict(rng, fs, complete, 0.05, 0.03)), "5", "{}"])
+            key, nm = g, rng.choice(fs)[0]
+            if "." in nm and rng.random() < 0.4:   # the sub-group's own variable
+                key = g + "__" + nm.split(".")[0]
+            env[("APP_" + key).upper()] = rng.choice([json.dumps(nest(group_dict(rng, fs, complete, 0.05, 0.03))), "5", "{}"])
     return env
 
 
@@ -251,7 +304,8 @@ def gen_args(rng, gk, fs, complete):
         elif q < 0.68:
             items.append([opt + "+", text_for(rng, t, rng.random() < 0.9, append=True)])
         elif q < 0.80:   # class 1
-            items.append(["--" + gk, rng.choice([json.dumps(group_dict(rng, fs, complete, 0.05, 0.03)), "{}", "5"])])
+            key = gk + "." + nm.split(".")[0] if "." in nm and rng.random() < 0.4 else gk   # the sub-group's loader
+            items.append(["--" + key, rng.choice([json.dumps(nest(group_dict(rng, fs, complete, 0.05, 0.03))), "{}", "5"])])
         elif q < 0.92:
             items.append(["--cfg", json.dumps(gen_config(rng, gk, fs, complete))])
         elif q < 0.96:
@@ -283,6 +337,14 @@ def yaml_text(d):
     return yaml.safe_dump(d, default_flow_style=False, sort_keys=False)
 
 
+def F(*fields):
+    return list(fields)
+
+
+NESTED = [["a", "int", {"v": 1}, {"o": 5}],
+          {"sub": "s", "fields": [["lr", "int", {"v": 2}, {"o": 7}], ["m", "str", {"v": "x"}]], "mdef": True},
+          ["b", "int", {"v": 3}, {"o": 9}]]
+
 FIXED = [
     # the recorded findings, so that every run sees them
     ("g", [["a", "int", {"v": 1}], ["b", "str", {"v": "x"}]],
@@ -300,11 +362,66 @@ FIXED = [
      [{"env": {}, "kind": "args", "args": []}, {"env": {}, "kind": "args", "args": [["--g._p", "3"]]}]),
     ("my-g", [["f", "int", {"nd": 1}], ["a", "int", {"v": 1}]],
      [{"env": {}, "kind": "args", "args": [["--my-g.f", "2"]]}, {"env": {}, "kind": "obj", "obj": {"my_g": {"f": 2}}}]),
+    # declaration-time default overrides, a nested sub-group in the middle
+    ("g", NESTED,
+     [{"env": {}, "kind": "args", "args": []},
+      {"env": {}, "kind": "args", "args": [["--g.s.lr", "4"], ["--g.b", "1"]]},
+      {"env": {"APP_G__S__LR": "8"}, "kind": "obj", "obj": {"g": {"s": {"m": "y"}, "a": 0}}},
+      {"env": {}, "kind": "args", "args": [["--g.s", "{\"lr\": 1}"]]}]),
+    ("g", [["a", "int", {"v": 1}, {"o": 5}], ["b", "str", {"v": "x"}]],
+     [{"env": {}, "kind": "args", "args": []}, {"env": {}, "kind": "args", "args": [["--g.b", "z"]]}]),
+    # hyphenated key and a default override: set_defaults is called with the raw key
+    ("my-g", [["a", "int", {"v": 1}, {"o": 5}], ["b", "str", {"v": "x"}]],
+     [{"env": {}, "kind": "args", "args": []}]),
 ]
 
+SUBNAMES = ["s", "opt", "sub", "a_s"]
 
-def mk_case(t, gk, fs, inp=None):
-    c = {"t": t, "gk": gk, "fields": fs, "nfields": py_norm(fs)}
+
+def gen_members(rng, gk):
+    """the declared members of the group: leaves, sometimes one dataclass-typed member (a nested sub-group),
+    sometimes declaration-time default overrides (then every parameter has a signature default)"""
+    fs = gen_fields(rng)
+    if rng.random() < 0.7:
+        fs = make_explicit(fs)
+    if gk == "my-g" and rng.random() < 0.6:
+        fs = [[nm, t, ({"v": dflt_for(rng, t)} if "nd" in d else d)] for nm, t, d in fs]
+    ms = [list(f) for f in fs]
+    r = rng.random()
+    nested = r < 0.22
+    over = rng.random() < (0.5 if nested else 0.2)
+    if nested:
+        sub_fields = make_explicit(gen_fields(rng))[: rng.choice([1, 2, 2, 3])]
+        mdef = rng.random() < 0.5
+        if mdef:
+            sub_fields = [[nm, t, ({"v": dflt_for(rng, t)} if "nd" in d else d)] for nm, t, d in sub_fields]
+        pos = rng.randint(0, len(ms))
+        if over and len(ms) > 0 and rng.random() < 0.6:
+            pos = rng.randint(0, len(ms) - 1)       # something comes after the nested member
+        name = rng.choice([n for n in SUBNAMES if n not in [f[0] for f in fs]])
+        ms.insert(pos, {"sub": name, "fields": sub_fields, "mdef": mdef})
+    if over:
+        def defaulted(f):
+            nm, t, d = f[0], f[1], f[2]
+            if "nd" in d:
+                d = {"v": dflt_for(rng, t)}
+            return [nm, t, d]
+
+        def maybe_over(f):
+            if rng.random() < 0.6 and not (f[0].startswith("_")):
+                v = dflt_for(rng, f[1])
+                if v is None and not is_opt(f[1]) and f[2]["v"] is not None:
+                    return f
+                return f + [{"o": v}]
+            return f
+
+        ms = [dict(m, fields=[maybe_over(defaulted(f)) for f in m["fields"]]) if is_sub(m) else maybe_over(defaulted(m))
+              for m in ms]
+    return ms
+
+
+def mk_case(t, gk, ms, inp=None, full=False):
+    c = {"t": t, "gk": gk, "members": ms, "nmembers": py_mnorm(ms), "cls_full": full}
     if inp is not None:
         c["input"] = inp
     return c
@@ -312,24 +429,25 @@ def mk_case(t, gk, fs, inp=None):
 
 def generate(rng, tier):
     cases = []
-    for gk, fs, inputs in FIXED:
-        cases.append(mk_case("table", gk, fs))
+    for k, (gk, ms, inputs) in enumerate(FIXED):
+        full = k % 2 == 1
+        cases.append(mk_case("table", gk, ms, None, full))
         for inp in inputs:
-            cases.append(mk_case("run", gk, fs, inp))
+            cases.append(mk_case("run", gk, ms, inp, full))
     n_lists = 260 if tier == "quick" else 3000
     for _ in range(n_lists):
         gk = rng.choice(GKEYS)
-        fs = gen_fields(rng)
-        if rng.random() < 0.7:
-            fs = make_explicit(fs)
-        if gk == "my-g" and rng.random() < 0.6:
-            fs = [[nm, t, ({"v": dflt_for(rng, t)} if "nd" in d else d)] for nm, t, d in fs]
-        names = [f[0] for f in fs]
-        if len(set(names)) != len(names) or not py_norm(fs):
+        ms = gen_members(rng, gk)
+        names = [m["sub"] if is_sub(m) else m[0] for m in ms]
+        if len(set(names)) != len(names) or not leaves(py_mnorm(ms)):
             continue
-        cases.append(mk_case("table", gk, fs))
+        if any(is_sub(m) and (not py_norm(m["fields"]) or len({f[0] for f in m["fields"]}) != len(m["fields"])) for m in ms):
+            continue
+        full = rng.random() < 0.5
+        cases.append(mk_case("table", gk, ms, None, full))
+        lv = leaves(ms)
         for _ in range(10):
-            cases.append(mk_case("run", gk, fs, gen_input(rng, gk, fs)))
+            cases.append(mk_case("run", gk, ms, gen_input(rng, gk, lv), full))
     return cases
 
 
@@ -337,12 +455,13 @@ def generate(rng, tier):
 def observe(cases):
     groups = {}
     for i, c in enumerate(cases):
-        groups.setdefault(json.dumps([c["gk"], c["fields"], c.get("nfields")]), []).append(i)
+        groups.setdefault(json.dumps([c["gk"], case_members(c)]), []).append(i)
     payload_cases, index = [], []
     for key, idxs in groups.items():
         c0 = cases[idxs[0]]
         runs = [i for i in idxs if cases[i]["t"] == "run"]
-        payload_cases.append({"gk": c0["gk"], "fields": c0["fields"], "nfields": c0.get("nfields", py_norm(c0["fields"])),
+        ms, nms, full = case_members(c0)
+        payload_cases.append({"gk": c0["gk"], "members": ms, "nmembers": nms, "cls_full": full,
                               "inputs": [cases[i]["input"] for i in runs]})
         index.append((idxs, runs))
     nchunk = min(fw.JOBS, max(1, len(payload_cases)))
@@ -393,9 +512,25 @@ def g_val(v):
 
 
 def g_field(f):
-    nm, t, d = f
+    nm, t, d = f[0], f[1], f[2]
     return "{| f_name := %s; f_ty := %s; f_default := %s |}" % (
         g_str(nm), g_ty(t), "NoDefault" if "nd" in d else "(Dflt %s)" % g_val(d["v"]))
+
+
+def g_ofield(f):
+    over = g_opt(g_val(f[3]["o"])) if len(f) > 3 and f[3] is not None else "None"
+    return "{| o_field := %s; o_over := %s |}" % (g_field(f), over)
+
+
+def g_member(m):
+    if is_sub(m):
+        return "(MSub %s %s %s)" % (g_str(m["sub"]), g_list([g_ofield(f) for f in m["fields"]], "ofield"),
+                                   g_bool(bool(m.get("mdef"))))
+    return "(MLeaf %s)" % g_ofield(m)
+
+
+def g_table_opt(tb):
+    return "None" if "error" in tb else "(Some %s)" % g_table(tb)
 
 
 def g_table(tb):
@@ -469,18 +604,19 @@ def safe_val(v):
 
 
 def term(case, obs):
-    fs = g_list([g_field(f) for f in case["fields"]], "field")
-    nfs = g_list([g_field(f) for f in case.get("nfields", py_norm(case["fields"]))], "field")
+    ms, nms, full = case_members(case)
+    gms = g_list([g_member(m) for m in ms], "member")
+    gnms = g_list([g_member(m) for m in nms], "member")
     if case["t"] == "table":
-        return "CTable %s %s %s %s" % (g_str(case["gk"]), fs, nfs, g_four(g_table, obs["tables"]))
-    return "CRun %s %s %s %s %s %s %s" % (g_str(case["gk"]), fs, nfs, g_input(case["input"]), g_tab(obs["pv"]),
-                                          g_tab(obs["jl"]), g_four(g_run, obs["styles"]))
+        return "CTable %s %s %s %s %s" % (g_str(case["gk"]), gms, gnms, g_bool(full), g_four(g_table_opt, obs["tables"]))
+    return "CRun %s %s %s %s %s %s %s %s" % (g_str(case["gk"]), gms, gnms, g_bool(full), g_input(case["input"]),
+                                             g_tab(obs["pv"]), g_tab(obs["jl"]), g_four(g_run, obs["styles"]))
 
 
 # ---- evidence helpers ------------------------------------------------------------------------------
 def nontrivial_key(case, obs):
     if case["t"] == "table":
-        return None if len(case["fields"]) < 2 else json.dumps([case, obs], sort_keys=True)
+        return None if len(leaves(case_members(case)[0])) < 2 else json.dumps([case, obs], sort_keys=True)
     inp = case["input"]
     empty = not inp["env"] and not inp.get("args") and not inp.get("obj") and not inp.get("text")
     return None if empty else json.dumps([case, obs["styles"]], sort_keys=True)
@@ -491,17 +627,30 @@ def _outcome(r):
     return "ok" if isinstance(o, dict) else o.split(":")[0]
 
 
+def shape(ms):
+    bits = []
+    if any(is_sub(m) for m in ms):
+        bits.append("nested")
+    if any(len(f) > 3 for m in ms for f in (m["fields"] if is_sub(m) else [m])):
+        bits.append("overrides")
+    return "+".join(bits) or "flat"
+
+
 def category(case, obs):
+    ms = case_members(case)[0]
     if case["t"] == "table":
-        return "table/%d fields/%s" % (len(case["fields"]), "explicit" if explicit(case["fields"]) else "implicit")
+        return "table/%d leaves/%s" % (len(leaves(ms)), shape(ms))
     outs = [_outcome(obs["styles"][s]) for s in STYLES]
     same = all(json.dumps(obs["styles"][s], sort_keys=True) == json.dumps(obs["styles"]["dotted"], sort_keys=True) for s in STYLES)
-    return "run/%s/%s%s" % (case["input"]["kind"], outs[1], "" if same else "/styles-differ")
+    return "run/%s/%s/%s%s" % (shape(ms), case["input"]["kind"], outs[1], "" if same else "/styles-differ")
 
 
 def describe(case, obs):
-    d = {"group_key": case["gk"], "fields(name,type,default)": case["fields"],
-         "fields_as_declared_in_the_dotted_and_inner_parser_styles": case.get("nfields", py_norm(case["fields"]))}
+    ms, nms, full = case_members(case)
+    d = {"group_key": case["gk"],
+         "members: [name,type,default,{o: overriding default}] | {sub: nested dataclass member}": ms,
+         "members_as_declared_in_the_dotted_and_inner_parser_styles": nms,
+         "class_style_default_dict_is_complete": full}
     if case["t"] == "table":
         d["tables_of_the_four_real_parsers"] = obs["tables"]
     else:
@@ -516,11 +665,18 @@ def addresses_group(case):
         return False
     gk, inp = case["gk"], case["input"]
     g = gdest(gk)
-    if ("APP_" + g).upper() in inp["env"]:
+    subs = [m["sub"] for m in case_members(case)[0] if is_sub(m)]
+    if any(("APP_" + k).upper() in inp["env"] for k in [g] + [g + "__" + n for n in subs]):
         return True
 
     def in_cfg(d):
-        return isinstance(d, dict) and any(k == g and not isinstance(v, dict) for k, v in d.items())
+        if not isinstance(d, dict):
+            return False
+        d = nest(d)
+        if any(k == g and not isinstance(v, dict) for k, v in d.items()):
+            return True
+        gv = d.get(g)
+        return isinstance(gv, dict) and any(k in subs and not isinstance(v, dict) for k, v in gv.items())
 
     def in_text(t):
         import yaml
@@ -532,7 +688,8 @@ def addresses_group(case):
     if any(in_text(t) for k, t in inp["env"].items() if k == "APP_CFG"):
         return True
     if inp["kind"] == "args":
-        return any(("--" + gk).startswith(o) or in_text(v) for o, v in inp["args"])
+        return any(any(("--" + k).startswith(o) for k in [gk] + [gk + "." + n for n in subs]) or in_text(v)
+                   for o, v in inp["args"])
     if inp["kind"] == "obj":
         return in_cfg(inp["obj"])
     return in_text(inp["text"])
@@ -545,15 +702,23 @@ def shrink(case):
     if addresses_group(case):
         return
 
-    def with_fields(fs):
-        return dict(case, fields=fs, nfields=py_norm(fs))
+    ms, _, full = case_members(case)
 
-    fs = case["fields"]
-    if len(fs) > 1:
-        for i in range(len(fs)):
-            c = with_fields(fs[:i] + fs[i + 1:])
-            if c["nfields"]:
+    def with_members(ms2):
+        c = {k: v for k, v in case.items() if k not in ("fields", "nfields")}
+        return dict(c, members=ms2, nmembers=py_mnorm(ms2), cls_full=full)
+
+    if len(ms) > 1:
+        for i in range(len(ms)):
+            c = with_members(ms[:i] + ms[i + 1:])
+            if leaves(c["nmembers"]):
                 yield c
+    for i, m in enumerate(ms):
+        if is_sub(m) and len(m["fields"]) > 1:
+            for j in range(len(m["fields"])):
+                c = with_members(ms[:i] + [dict(m, fields=m["fields"][:j] + m["fields"][j + 1:])] + ms[i + 1:])
+                if py_norm(c["members"][i]["fields"]):
+                    yield c
     if case["t"] == "run":
         inp = case["input"]
         for k in list(inp["env"]):
